@@ -963,7 +963,7 @@ def run_round(ctx, st, fl, client_bin, sc, rno, picks, mode, yield_on, n_bin, la
             if not died and st.tiny and st.bad_events < BAD_CAP:
                 troubles.extend(hammer(ctx, st, dm, ctx.rng("hammer", rno, kind, attempt),
                                        "round %d (%s), hammer stage: %d clients issuing short sessions back to back" % (rno, kind, HAMMER_THREADS),
-                                       ctx.n(24, 60)))
+                                       ctx.n(24, 40)))
                 if not dm.alive():
                     died = "rc=%s" % dm.returncode()
             stuck = None
